@@ -125,6 +125,20 @@ def check_zero(case, ctx):
     check(case, ctx)
 
 
+# PickAPerm is not in this list: it scores every input ranking against the whole dataset (quadratic in the number of
+# rankings, minutes on a 2 000-ballot dataset) - slow, not wrong, and the per-case watchdog must never see it
+LARGE_PAIRS = [(n, "absent") for n in ("bioconsert", "bioconsert_copeland", "bioco", "borda", "copeland",
+                                        "kwiksort", "bioconsert_kwik_cop_borda")]
+
+
+@st.composite
+def large_alg_cases(draw, tier):
+    name, env = draw(st.sampled_from(LARGE_PAIRS))
+    scheme = draw(st.one_of(gen.any_schemes(), gen.preset_multiples(["unifying", "unifying", "induced"])))
+    return {"config": name, "env": env, "scheme": scheme, "dataset": draw(gen.large_datasets()),
+            "at_most_one": draw(st.booleans()), "rng": draw(st.integers(0, 999))}
+
+
 REUSE_CFGS = ["borda", "borda_bucket", "copeland", "kwiksort", "pickaperm", "bioconsert", "bioco", "bioconsert_copeland",
               "parcons_default", "exact_pulp", "exact_default", "parcons_kwik_b2"]
 
@@ -175,5 +189,6 @@ def subchecks():
     return [HypSub("reported_any", alg_cases, check, quick=2500, thorough=60000),
             HypSub("reported_self_scored", self_scored_cases, check, quick=2500, thorough=60000),
             HypSub("accepted_families_scaled", restricted_cases, check, 2500, 40000),
+            HypSub("reported_large", large_alg_cases, check, 300, 4000),
             HypSub("instance_reuse", reuse_cases, check_reuse, 2000, 30000),
             HypSub("zero_objective", zero_objective_cases, check_zero, quick=600, thorough=8000)]
